@@ -307,13 +307,30 @@ def check_foreign(case, res):
     return
   shown = ""
   body = doc.get_body() if doc is not None else None
+  from ttconv import model as _m
   if body is not None:
-    from ttconv import model as _m
     shown = "".join(e.get_text() for e in body.dfs_iterator() if isinstance(e, _m.Text))
   it = iter("ABCD")
   if not all(ch in it for ch in shown.replace(" ", "")):
     res.fail("foreign-word-decoded:" + cls[0], "%s inside a channel-1 caption: the document shows %r" % (word, shown))
   res.nontrivial = True
+  # a channel-2 / field-2 code sent right after its channel-1 twin (sent once) is not the twin's second transmission: the text after
+  # it belongs to the other channel
+  if cls[0] in ("pac", "midrow", "attr", "control") and cls[1] != 1:
+    twin = w & ~0x0800 if cls[1] == 2 else (w & ~0x0900)
+    if ref.classify(twin)[0] == cls[0] and ref.classify(twin)[1] == 1:
+      res.label("foreign:after-its-channel-1-twin")
+      tw = "%04x" % ((with_parity(twin >> 8) << 8 | with_parity(twin & 0xFF)) if case["parity"] else twin)
+      text = "Scenarist_SCC V1.0\n\n00:00:00:00\t9420 9420 9470 9470 %s %s c1c2 942f 942f\n\n00:00:02:00\t942c 942c\n" % (tw, word)
+      try:
+        doc = to_model(text)
+      except Exception as e:  # pylint: disable=broad-except
+        res.crash(e, "reader:")
+        return
+      body = doc.get_body() if doc is not None else None
+      shown = "" if body is None else "".join(e.get_text() for e in body.dfs_iterator() if isinstance(e, _m.Text))
+      if shown.strip(" ") != "":
+        res.fail("foreign-code-taken-for-retransmission:" + cls[0], "%s %s AB: the document shows %r" % (tw, word, shown))
 
 
 PARTS = {
